@@ -45,6 +45,7 @@ SILENCE = 12.0
 STARTUP = 600.0
 BUSY_CAP = 240.0          # a child that is silent but burning CPU is given this long
 CHILD_STUCK = 40.0        # in-child: threads inside calls without any event although the controller runs
+LONG = 1000               # events; far above the longest behaviour of LazySeq.tla for any generated scenario
 GRACE = 0.02              # in-child steering: silence after which a thread is assumed blocked in native code
 
 
@@ -709,8 +710,17 @@ def mt_part(chk, scs, label="mt"):
     results, ctl = run_children(scs, max_hangs)
     for e in ctl["errors"]:
         chk.machinery(e)
-    complete = [r for r in results if r["status"] == "ok"]
+    complete = [r for r in results if r["status"] == "ok" and len(r["ev"]) <= LONG]
+    runaway = [r for r in results if r["status"] == "ok" and len(r["ev"]) > LONG]
     hung = [r for r in results if r["status"] != "ok"]
+    for r in runaway:
+        # no behaviour of LazySeq.tla for these programs and plans is that long (a producer is started at most twice
+        # per cell: each plan raises at most once); such an execution is reported without asking TLC
+        starts = collections.Counter(e["c"] for e in r["ev"] if e["k"] == "pstart")
+        chk.discrepancy("LazySeq!RunsAtMostOnce", {"kind": "mt", "scenario": _pub(r["sc"])},
+                        "at most %d events (every producer starts at most twice)" % LONG,
+                        "%d events; producer starts per cell: %s" % (len(r["ev"]), dict(starts)),
+                        module="LazySeq", direction="code->spec", extra={"trace_head": r["ev"][:60]})
     traces = [to_trace(r) for r in complete]
     acc = validate(chk, traces, label) if traces else set()
     rejected = [r for r in complete if r["sc"]["id"] not in acc]
@@ -743,7 +753,7 @@ def mt_part(chk, scs, label="mt"):
             chk.nontriv(n=1)
     st = chk.extra.setdefault("mt", {})
     st[label] = {"scenarios": len(scs), "executed": len(results), "complete": len(complete), "accepted": len(acc),
-                 "rejected": len(rejected), "frozen_or_stuck": len(hung),
+                 "rejected": len(rejected), "frozen_or_stuck": len(hung), "runaway": len(runaway),
                  "not_run_after_%d_hangs" % max_hangs: ctl["skipped"],
                  "decisions_not_applicable_in_replay": sum(r["skipped"] for r in results),
                  "executions_with_a_call_overlapping_a_running_producer": sum(1 for r in complete if _overlap(r["ev"])),
